@@ -5,7 +5,7 @@ import common, asyncgen
 def concurrent_oracle(case, obs):
     """conclusion of c04_final / c04_block / c06_fifo_per_producer evaluated on a real concurrent run"""
     f = case.split()
-    pol, np_, ni, raw_every, dis_every = f[1], int(f[2]), int(f[3]), int(f[5]), int(f[6])
+    pol, np_, ni, raw_every, dis_every = f[1].replace('+L', ''), int(f[2]), int(f[3]), int(f[5]), int(f[6])
     parts = obs.split(' | ')
     if len(parts) != 3:
         return 'bad-observation'
@@ -49,7 +49,8 @@ def concurrent_cases(rng, n):
         delay = rng.choice([0, 0, 20, 200])
         if pol == 'Block' and delay >= 200:
             ni = min(ni, 60)
-        cases.append('%d %s %d %d %d %d %d' % (cap, pol, np_, ni, delay, rng.choice([0, 2, 5]), rng.choice([0, 3, 7])))
+        # '+L': the logger has its own layout and the reference a lower bound (the worker's other delivery path)
+        cases.append('%d %s %d %d %d %d %d' % (cap, pol + rng.choice(['', '', '+L']), np_, ni, delay, rng.choice([0, 2, 5]), rng.choice([0, 3, 7])))
     return cases
 
 
@@ -88,13 +89,13 @@ def check(run):
         pol = rng.choice(asyncgen.POLICIES)
         occ = rng.choice([0, 1, cap - 1, cap, cap + 1, rng.randint(0, cap + 1)])
         ops = asyncgen.fill_prefix(cap, occ) + asyncgen.random_sequence(rng, cap, pol, rng.randint(1, 160 if quick else 260), occ=occ)
-        cases.append('%d %s %s' % (cap, pol, ' '.join(ops)))
+        cases.append('%d %s %s' % (cap, pol + rng.choice(['', '', '+L']), ' '.join(ops)))
 
     def nontrivial(c, obs):
         last = obs.split(';')[-1].split('|')
         return len(last) >= 2 and last[1] not in ('0', '') or '|b' in obs
     common.simple_family_check(run, 'c04', 'c04/gated-sequences', cases, nontrivial,
-        'deterministic operation sequences (submit event/raw/disabled, let the worker hand over one item, Stop) against the real AsyncLogger with the worker parked '
+        'deterministic operation sequences (submit event/raw/disabled, let the worker hand over one item, Stop) against the real AsyncLogger (without a layout, and with its own layout plus a lower-bounded reference) with the worker parked '
         'inside a gated appender; start occupancies 0,1,cap-1,cap,cap+1,random; after EVERY operation: delivered ids in order, discard counter, buffer length, '
         'whether the call returned; non-trivial = at least one discard or a blocked call', keep_empty=False, timeout=3000)
     run_concurrent(run, 'c04/concurrent', 40 if quick else 1200)
